@@ -30,12 +30,21 @@ type Sink struct {
 	FailedIn string // label of the API call during which it was injected
 	FailSite string // classification of the failed write
 	Hook     func(ev WriteEvent, p []byte)
+	// FailErr: the error value the failing writes return (default ErrInjected)
+	FailErr error
 }
 
 // ErrInjected is the error returned by injected faults.
 var ErrInjected = errors.New("verif: injected I/O failure")
 
 func NewSink() *Sink { return &Sink{FailAt: -1} }
+
+func (s *Sink) failErr() error {
+	if s.FailErr != nil {
+		return s.FailErr
+	}
+	return ErrInjected
+}
 
 func (s *Sink) Write(p []byte) (int, error) {
 	idx := len(s.Events)
@@ -52,15 +61,15 @@ func (s *Sink) Write(p []byte) (int, error) {
 		if s.FailMode == "partial" {
 			n := len(p) / 2
 			s.Buf = append(s.Buf, p[:n]...)
-			return n, ErrInjected
+			return n, s.failErr()
 		}
 		if s.FailMode == "fullcount" {
 			// every byte taken, and an error all the same (a sink that stores the data and then
 			// fails to sync it): legal for an io.Writer
 			s.Buf = append(s.Buf, p...)
-			return len(p), ErrInjected
+			return len(p), s.failErr()
 		}
-		return 0, ErrInjected
+		return 0, s.failErr()
 	}
 	s.Buf = append(s.Buf, p...)
 	return len(p), nil
